@@ -4,6 +4,7 @@ import Gotree.Spec.C16Keys
 import Gotree.Spec.C16Index
 import Gotree.Spec.C16Cli
 import Gotree.Spec.C16Extra
+import Gotree.Spec.C16Doc
 
 namespace Gotree.Driver.C16
 open Gotree Gotree.Driver Gotree.C16
@@ -55,7 +56,7 @@ def genTags (g : GenKind) (n : Int) (rooted : Bool) (ints : List Nat) (lens : Li
   let below := decide (n < (g.min rooted : Int))
   [kindTag g, if rooted then "rooted" else "unrooted"] ++
   tagIf below "below-min" ++ tagIf (n < 0) "negative" ++ tagIf (n == (g.min rooted : Int)) "at-min" ++
-  tagIf (below || decide (4 ≤ g.ntips n.toNat)) "nontrivial" ++
+  tagIf (!below && decide (4 ≤ g.ntips n.toNat)) "nontrivial" ++ tagIf (docGap g n rooted) "doc-min-gap" ++
   tagIf (!below && drawsInRange g n.toNat rooted ints) "hyp-draws-in-range" ++
   tagIf (!below && lensNonneg lens) "hyp-lens-nonneg" ++
   tagIf (!below) "hyp-min"
@@ -83,10 +84,12 @@ def handleGen (f : List String) : Verdict :=
       else if cl == "malformed" then ⟨.oracle, tags, "the returned heap is not a tree: " ++ cls⟩
       else if below then
         if cl != "err" then ⟨.oracle, tags, "a size below the minimum was not rejected"⟩
+        else if cls == "err:+tree" then
+          ⟨.oracle, "err-with-tree" :: tags, "a rejected size: the error comes together with a tree (the caller may go on with it)"⟩
         else if !m.isErr then ⟨.tie, tags, "model does not reject"⟩
         else if sync != "ok" then ⟨.tie, tags, "draw protocol: the code did not consume the scripted draws before the rejection"⟩
         else if !scriptOK then ⟨.tie, tags, "draw protocol: the harness script is not the model's"⟩
-        else ⟨.pass, "rejected" :: tags, ""⟩
+        else ⟨.pass, "rejected" :: tags ++ tagIf (cls == "err:+tree") "err-with-tree", ""⟩
       else if cl == "err" then ⟨.oracle, tags, "a valid size was rejected"⟩
       else
         match rest with
@@ -99,7 +102,7 @@ def handleGen (f : List String) : Verdict :=
           match T.undump dump, parseStrList tipsS, parseBool rflag, parseStrList probesS, parseNatList nrightS, idxObs with
           | some t, some tips, some rf, some probes, some nright, some iob =>
             let nn := n.toNat
-            let treeOK := genTreeOK g nn rooted t
+            let treeOK := genTreeOK2 g nn rooted t
             let flagsOK := tips == t.tipNames && rf == t.rooted
             let exOK := existsOK t probes (parseAnswers ansS)
             let bOK := match parseStrLists bitsS with
@@ -166,7 +169,7 @@ def handleCli (f : List String) : Verdict :=
         match (splitTerm "|" dumps).mapM T.undump with
         | none => bad "C16.cli dumps"
         | some ts =>
-          if !(ts.all (genTreeOK g n.toNat rooted)) then
+          if !(ts.all (genTreeOK2 g n.toNat rooted)) then
             ⟨.oracle, tags, "a written tree is not a valid " ++ ks ++ " tree of the requested size/rootedness"⟩
           else
             let triples := List.zip ts (List.zip intsM lensM)
@@ -195,7 +198,7 @@ def handleTopo (f : List String) : Verdict :=
       let below := decide (n < minN) || badNames
       let dup := hasDup names
       let tags := ["topo", via, if rooted then "rooted" else "unrooted"] ++ tagIf below "below-min" ++
-        tagIf (below || decide (n ≥ 4)) "nontrivial" ++ tagIf (!names.isEmpty) "names" ++ tagIf badNames "names-mismatch" ++
+        tagIf (!below && decide (n ≥ 4)) "nontrivial" ++ tagIf (!names.isEmpty) "names" ++ tagIf badNames "names-mismatch" ++
         tagIf (!below && !dup) "hyp-names-nodup"
       let cl := classOf cls
       -- the command takes the number of tips from the tree given with -i
@@ -234,27 +237,31 @@ def handleTopo (f : List String) : Verdict :=
     | _, _, _ => bad "C16.topo fields"
   | _ => bad "C16.topo arity"
 
-/-- common frame of the extra constructors: expected class from the model, oracle on the returned
-    tree, exact agreement of the dumps (the constructions are deterministic) -/
-def extraVerdict (tags : List String) (m : Res Out) (cls : String) (dumpS : String) (ok : T → Bool) : Verdict :=
+/-- common frame of the extra constructors.  ORACLE (model-free): `mustReject` is read off the
+    inputs by a Spec predicate, `ok` judges the returned tree.  TIE: the model's outcome and its
+    exact dump (the constructions are deterministic). -/
+def extraVerdict (tags : List String) (mustReject : Bool) (m : Res Out) (cls : String) (dumpS : String)
+    (ok : T → Bool) : Verdict :=
   let cl := classOf cls
   if cl == "panic" || cl == "timeout" || cl == "memory" || cl == "malformed" then
     ⟨.oracle, "crash" :: tags, "the constructor crashed or returned a broken heap: " ++ cls⟩
+  else if mustReject then
+    if cl != "err" then ⟨.oracle, tags, "an input that must be rejected was accepted"⟩
+    else match m with
+      | .err e => ⟨.pass, "rejected" :: tags ++ tagIf (cls == "err:" ++ escape e) "same-error", ""⟩
+      | _ => ⟨.tie, tags, "model does not reject"⟩
+  else if cl == "err" then ⟨.oracle, tags, "a valid input was rejected"⟩
   else
-    match m, cl with
-    | .err e, "err" =>
-      -- fidelity only: is it the same error message
-      ⟨.pass, "rejected" :: "nontrivial" :: tags ++ tagIf (cls == "err:" ++ escape e) "same-error", ""⟩
-    | .err e, _ => ⟨.oracle, tags, "an input that must be rejected (" ++ e ++ ") was accepted"⟩
-    | .panic e, _ => ⟨.tie, tags, "model panics: " ++ e⟩
-    | .ok _, "err" => ⟨.oracle, tags, "a valid input was rejected"⟩
-    | .ok o, _ =>
-      match T.undump dumpS with
-      | none => bad "extra dump"
-      | some t =>
-        if !(ok t) then ⟨.oracle, tags, "the returned tree is not the tree the constructor must build"⟩
-        else if (eraseIds o.t).dump != (eraseIds t).dump then ⟨.tie, tags, "model tree " ++ o.t.dump⟩
-        else ⟨.pass, "nontrivial" :: "exact" :: tags, ""⟩
+    match T.undump dumpS with
+    | none => bad "extra dump"
+    | some t =>
+      if !(ok t) then ⟨.oracle, tags, "the returned tree is not the tree the constructor must build"⟩
+      else match m with
+        | .ok o =>
+          if (eraseIds o.t).dump != (eraseIds t).dump then ⟨.tie, tags, "model tree " ++ o.t.dump⟩
+          else ⟨.pass, "nontrivial" :: "exact" :: tags, ""⟩
+        | .err e => ⟨.tie, tags, "model rejects: " ++ e⟩
+        | .panic e => ⟨.tie, tags, "model panics: " ++ e⟩
 
 def handleExtra (op : String) (f : List String) : Verdict :=
   match op, f with
@@ -262,7 +269,7 @@ def handleExtra (op : String) (f : List String) : Verdict :=
     match parseStrList namesS with
     | some names =>
       extraVerdict (["starn"] ++ tagIf (hasDup names) "dup-names" ++ tagIf (names.length < 2) "below-min")
-        (starFromNames names) cls dumpS (starFromNamesOK names)
+        (starnMustReject names) (starFromNames names) cls dumpS (starFromNamesOK names)
     | none => bad "C16.starn fields"
   | "start", [dinS, cls, dumpS] =>
     match T.undump dinS with
@@ -270,21 +277,21 @@ def handleExtra (op : String) (f : List String) : Verdict :=
       let te := tipEdgesOf tin
       extraVerdict (["start"] ++ tagIf (hasDup (te.map (·.1))) "dup-names" ++ tagIf (te.length < 2) "below-min" ++
           tagIf (tin.kids.length == 1) "roottip" ++ tagIf (te.any fun x => x.2 == NIL) "absent-length")
-        (starFromTree tin) cls dumpS (starFromTreeOK tin)
+        (startMustReject tin) (starFromTree tin) cls dumpS (starFromTreeOK tin)
     | none => bad "C16.start fields"
   | "bipart", [leftS, rightS, cls, dumpS] =>
     match parseStrList leftS, parseStrList rightS with
     | some left, some right =>
       extraVerdict (["bipart"] ++ tagIf (hasDup (left ++ right)) "dup-names" ++
           tagIf (left.length ≤ 1 || right.length ≤ 1) "below-min")
-        (bipartitionTree left right) cls dumpS (twoStarOK left right)
+        (bipartMustReject left right) (bipartitionTree left right) cls dumpS (twoStarOK left right)
     | _, _ => bad "C16.bipart fields"
   | "edgetree", [dinS, kS, cls, dumpS] =>
     match T.undump dinS, kS.toNat? with
     | some tin, some k =>
       let below := (tin.splits.getD k ⟨[], EdgeD.blank, false⟩).below
       extraVerdict (["edgetree"] ++ tagIf (below.length ≤ 1) "tip-branch")
-        (edgeTree tin k) cls dumpS
+        (decide (tin.splits.length ≤ k)) (edgeTree tin k) cls dumpS
         (twoStarOK (tin.tipNames.filter fun x => !below.contains x) (tin.tipNames.filter fun x => below.contains x))
     | _, _ => bad "C16.edgetree fields"
   | _, _ => bad ("C16: unknown op " ++ op)
